@@ -521,3 +521,93 @@ func g14VisitContinues(r *Repo, rep *Report) {
 		rep.fail(Finding{Rule: "G14", Key: "G14|visit|floor", Kind: "undecided", Where: []string{r.pos(fi.Decl.Pos())}, Msg: "fewer return statements in (*finder).Visit than confirmed by hand"})
 	}
 }
+
+// g14ReservedBeforeNaming — newName avoids the names in the reserved set at the moment it is asked; -autoname asks while the
+// calls are still being registered (SetFuncName → GetFuncName → newName). The set must therefore be complete before the first
+// call is registered: in newPackage no store into the reserved set (an assignment to the variable handed to newTypesMap, or an
+// index store into it) may be reachable from a call of (*pkg).Add.
+func g14ReservedBeforeNaming(c *Ctx) {
+	r, rep := c.Repo, c.Rep
+	fi := r.lookup("derive.newPackage")
+	ntm := r.lookup("derive.newTypesMap")
+	if fi == nil || ntm == nil {
+		rep.fail(Finding{Rule: "G14", Key: "G14|reserved-order|missing", Kind: "undecided", Msg: "newPackage/newTypesMap not found"})
+		return
+	}
+	info := fi.Pkg.TypesInfo
+	var resVar types.Object
+	idx := -1
+	sig := ntm.Fn.Type().(*types.Signature)
+	for i := 0; i < sig.Params().Len(); i++ {
+		if sig.Params().At(i).Name() == "reserved" {
+			idx = i
+		}
+	}
+	ast.Inspect(fi.Decl.Body, func(n ast.Node) bool {
+		if c, ok := n.(*ast.CallExpr); ok && callee(info, c) == ntm.Fn && idx >= 0 && idx < len(c.Args) {
+			if id, ok := c.Args[idx].(*ast.Ident); ok {
+				resVar = info.Uses[id]
+			}
+		}
+		return true
+	})
+	if resVar == nil {
+		rep.fail(Finding{Rule: "G14", Key: "G14|reserved-order|arg", Kind: "undecided", Where: []string{r.pos(fi.Decl.Pos())}, Msg: "cannot identify the reserved-name set passed to newTypesMap"})
+		return
+	}
+	g := newGraph(fi.Decl.Body, func(*ast.CallExpr) bool { return true })
+	var stores, adds []ast.Node
+	for _, b := range g.Blocks {
+		for _, n := range b.Nodes {
+			ast.Inspect(n, func(m ast.Node) bool {
+				switch x := m.(type) {
+				case *ast.FuncLit:
+					return false
+				case *ast.AssignStmt:
+					for _, l := range x.Lhs {
+						switch lv := l.(type) {
+						case *ast.Ident:
+							if objOf(info, lv) == resVar && x.Tok == token.ASSIGN {
+								stores = append(stores, x)
+							}
+						case *ast.IndexExpr:
+							if id, ok := ast.Unparen(lv.X).(*ast.Ident); ok && info.Uses[id] == resVar {
+								stores = append(stores, x)
+							}
+						}
+					}
+				case *ast.CallExpr:
+					if fn, ok := callee(info, x).(*types.Func); ok && funcKey(fn) == "derive.(*pkg).Add" {
+						adds = append(adds, x)
+					}
+				}
+				return true
+			})
+		}
+	}
+	rep.analysed("reserved_stores", len(stores))
+	if len(adds) == 0 || len(stores) == 0 {
+		rep.fail(Finding{Rule: "G14", Key: "G14|reserved-order|floor", Kind: "undecided", Where: []string{r.pos(fi.Decl.Pos())}, Msg: fmt.Sprintf("newPackage: %d stores into the reserved set and %d calls of (*pkg).Add found (both were confirmed by hand)", len(stores), len(adds))})
+		return
+	}
+	for _, a := range adds {
+		ab, ai := g.locate(a.Pos())
+		if ab == nil {
+			continue
+		}
+		// blocks reachable from the Add call (its own block counts from the following nodes on; the block itself again if it lies on a cycle)
+		reach := g.reachable(ab.Succs, nil)
+		for _, s := range stores {
+			sb, si := g.locate(s.Pos())
+			if sb == nil {
+				continue
+			}
+			if reach[sb] || (sb == ab && si > ai) {
+				rep.fail(Finding{Rule: "G14", Key: "G14|reserved-order|store-after-naming", Where: []string{r.pos(s.Pos()), r.pos(a.Pos())},
+					Msg: "newPackage still adds names to the reserved set (at " + r.pos(s.Pos()) + ") after calls have begun to be registered: with -autoname a fresh name is chosen while registering (SetFuncName → newName), so a function the user calls in a file that is visited later is not avoided and the package gets two declarations of that name"})
+				return
+			}
+		}
+	}
+	rep.pass("G14")
+}
